@@ -14,9 +14,12 @@ EXTRA_T1 = [('stream.c', 'ABT_xstream_join'), ('stream.c', 'ABT_xstream_free'), 
 def run(res, tier, broken):
     ST.run_stop(res, tier, broken, "C06")
     S.run_sched(res, tier, broken, "C06", EXTRA_T1)
+    S.run_native(res, "nat_revive_join", "a revived stream keeps running while idle and its next join waits for the work pushed later")
 
 
 def replay(res, path):
+    if json.load(open(path)).get("native"):
+        return S.replay_native(json.load(open(path)))
     if "stop" in json.load(open(path)):
         return ST.replay(res, path)
     return S.replay(res, path)
